@@ -26,13 +26,16 @@ CZ2 == {g \in {G("CZ", "MCZ", <<a, b>>, 0) : a, b \in Qs} : g.w[1] # g.w[2]}
 SW2 == {g \in {G("Swap", "SWAP", <<a, b>>, 0) : a, b \in Qs} : g.w[1] < g.w[2]}
 CP2 == {g \in {G("CP", "MCP", <<a, b>>, m) : a, b \in Qs, m \in {1, 2, 4, 12}} : g.w[1] # g.w[2]}
 MCZ3 == IF NQ >= 3 THEN {G("MCtrlZ", "MCZ", <<0, 1, 2>>, 0), G("MCtrlZ", "MCZ", <<2, 0, 1>>, 0)} ELSE {}
+\* the same number of controls through the generic multi-controlled classes (X and Z)
+MCX3 == IF NQ >= 3 THEN {G("MCX", "MCX", <<0, 1, 2>>, 0), G("MCtrlX", "MCX", <<1, 2, 0>>, 0)} ELSE {}
+MCZ4 == IF NQ >= 4 THEN {G("MCtrlZ", "MCZ", <<0, 1, 2, 3>>, 0), G("MCtrlZ", "MCZ", <<3, 0, 2, 1>>, 0)} ELSE {}
 
 Alphabet ==
   CASE Family = "classical" -> X1 \cup CX2 \cup CCX3
     [] Family = "sections" -> X1 \cup CX2 \cup CCX3 \cup MCX4 \cup Bar
                               \cup {G("H", "H", <<0>>, 0), G("Z", "Z", <<1 % NQ>>, 0), G("T", "T", <<(NQ - 1)>>, 0)}
     [] Family = "full" -> X1 \cup CX2 \cup CCX3 \cup MCX4 \cup Bar \cup Single("H") \cup Single("Z") \cup Single("S")
-                          \cup Single("T") \cup Single("Y") \cup CZ2 \cup SW2 \cup CP2 \cup MCZ3
+                          \cup Single("T") \cup Single("Y") \cup CZ2 \cup SW2 \cup CP2 \cup MCZ3 \cup MCX3 \cup MCZ4
 
 Init == s = <<>>
 Next == Len(s) < MaxLen /\ \E g \in Alphabet : s' = Append(s, g)
